@@ -1157,3 +1157,21 @@ Proof.
   - rewrite E. split; reflexivity.
   - exact (nondf_indistinguishable k (fst a) (fst b) A B C).
 Qed.
+
+(** the checker the harness evaluates is the verified validator: a call whose only validation is the
+    user's X gets the verdict and the attributes of [user_early] / [user_validator] *)
+Lemma call_model_single k st x seen acc cols dim known :
+  let c := mkCall (Some x) None None [(true, x, seen)] acc cols dim known in
+  fst (fst (call_model k st c)) = negb (user_early k x) && is_accept (user_validator k st x) /\
+  snd (fst (call_model k st c)) = if user_early k x then st else state_of (user_validator k st x).
+Proof.
+  unfold call_model. simpl.
+  destruct k; simpl.
+  - unfold k_validator; simpl. destruct (validate_X_stream st x) as [shp s|s]; simpl; auto.
+  - unfold k_validator, validate_univariate; simpl.
+    destruct (validate_X_stream st x) as [shp s|s]; simpl; auto.
+    destruct (negb (snd shp =? 1)); simpl; auto.
+  - unfold k_validator; simpl. destruct (validate_X_batch st x) as [shp s|s]; simpl; auto.
+  - destruct (cdbd_guard x); simpl; auto.
+    unfold k_validator; simpl. destruct (validate_X_batch st x) as [shp s|s]; simpl; auto.
+Qed.
